@@ -49,7 +49,7 @@ type wViolation struct {
 	Edge   *wEdge `json:"edge,omitempty"`
 }
 
-var wPw = map[string]string{"pw-alice": "Alice's pw #1", "pw-bob": "bob:pw", "pw-boss": "Boss-pw ü", "pw-eve": "eve pw",
+var wPw = map[string]string{"pw-alice": "Alice's pw #1", "pw-bob": "bob:pw", "pw-Alice": "Boss-pw ü", "pw-eve": "eve pw",
 	"pw-new": "a brand new password"}
 
 var (
@@ -135,8 +135,8 @@ func newWWorker(dir string) *wWorker {
 	w.sessions = h.(webHandler).sessions
 	// tokens are issued in the initial state, in which eve still is an administrator
 	w.materialise(map[string]wUser{"alice": {true, false, "pw-alice"}, "bob": {true, false, "pw-bob"},
-		"boss": {true, true, "pw-boss"}, "eve": {true, true, "pw-eve"}})
-	for _, n := range []string{"alice", "bob", "boss", "eve"} {
+		"Alice": {true, true, "pw-Alice"}, "eve": {true, true, "pw-eve"}})
+	for _, n := range []string{"alice", "bob", "Alice", "eve"} {
 		b, _ := json.Marshal(map[string]string{"username": n, "password": wPw["pw-"+n]})
 		code, out, raw := w.do("/api/authenticate", b)
 		tok, _ := out["session"].(string)
@@ -154,11 +154,11 @@ func newWWorker(dir string) *wWorker {
 		_, _, n, c := f.sealToken(pt)
 		return base64.URLEncoding.EncodeToString(n) + ":" + base64.URLEncoding.EncodeToString(c)
 	}
-	w.tokens["expired"] = seal(w.sessions, fmt.Sprintf("boss:true:%d", now-3600))
-	w.tokens["future"] = seal(w.sessions, fmt.Sprintf("boss:true:%d", now+3600))
+	w.tokens["expired"] = seal(w.sessions, fmt.Sprintf("Alice:true:%d", now-3600))
+	w.tokens["future"] = seal(w.sessions, fmt.Sprintf("Alice:true:%d", now+3600))
 	other, _ := NewWebSessionFactory(600 * time.Second)
-	w.tokens["other-instance"] = seal(other, fmt.Sprintf("boss:true:%d", now))
-	p := strings.SplitN(w.tokens["tok-boss"], ":", 2)
+	w.tokens["other-instance"] = seal(other, fmt.Sprintf("Alice:true:%d", now))
+	p := strings.SplitN(w.tokens["tok-Alice"], ":", 2)
 	ct, _ := base64.URLEncoding.DecodeString(p[1])
 	ct[3] ^= 0x10
 	w.tokens["tampered"] = p[0] + ":" + base64.URLEncoding.EncodeToString(ct)
@@ -209,7 +209,7 @@ func (w *wWorker) run(e *wEdge, variant int) {
 			old = wPw[u.Pw]
 		}
 	case "wrong":
-		old = []string{"not the password", wPw["pw-new"], " ", wPw["pw-boss"]}[variant%4]
+		old = []string{"not the password", wPw["pw-new"], " ", wPw["pw-Alice"]}[variant%4]
 		if u, ok := e.Pre[e.Target]; ok && u.Present {
 			if variant%2 == 1 && len(wPw[u.Pw]) > 2 {
 				old = wPw[u.Pw][:len(wPw[u.Pw])-1] // near miss
